@@ -106,6 +106,17 @@ class NumpyShim:
         if isinstance(shape, tuple) and len(shape) == 2 and _anysym(shape):
             k = self._kind(dtype, A.REAL)
             return A.SArr2.const(k, A._zi(shape[0]), A._zi(shape[1]), v)
+        if getattr(self, "nmode", False) and not _anysym(shape):
+            # N-mode: float arrays become object arrays so that symbolic reals can be stored into them
+            try:
+                isfloat = dtype is None or _np.dtype(dtype).kind == "f"
+            except TypeError:
+                isfloat = False
+            if isfloat:
+                out = _np.empty(shape, dtype=object)
+                out[...] = float(v)
+                return out
+            return (_np.zeros if v == 0 else _np.ones)(shape, dtype=dtype)
         if not _anysym(shape):
             if isinstance(shape, tuple) and len(shape) > 1 or not getattr(self, "force_symbolic", False):
                 if not getattr(self, "force_symbolic", False):
@@ -118,6 +129,12 @@ class NumpyShim:
         if isinstance(obj, A.SArr):
             out = obj.copy()
             return out if dtype is None else out.astype(self._kind(dtype))
+        if isinstance(obj, (list, tuple)) and _anysym(obj) and getattr(self, "nmode", False):
+            # N-mode: symbolic scalars travel in real numpy object arrays (numpy itself does the data movement)
+            out = _np.empty((len(obj),), dtype=object)
+            for j, v in enumerate(obj):
+                out[j] = v
+            return out
         if isinstance(obj, (list, tuple)) and _anysym(obj):
             k = self._kind(dtype)
             items = list(obj)
